@@ -12,6 +12,7 @@ import builtins
 import io
 import itertools
 import os
+import shutil
 import random
 import subprocess
 import sys
@@ -248,12 +249,57 @@ assert not any(lists), lists
     return r.stdout.strip().splitlines()[-1]
 
 
+def check_escape_detector():
+    """The audit hook must (a) stay silent for a complete API call through the layer and (b) report a file-system
+    call that reaches the store directory past the layer (here: the primitives captured before installation, as a
+    `from os import rename` in the package would)."""
+    from . import engine_f, env, ops as O
+    from .common import Inputs
+    root = os.path.join(common.scratch(), "st-audit")
+    shutil.rmtree(root, ignore_errors=True)
+    os.makedirs(root)
+    ins = Inputs({"A": common.pattern(5000, 1)}, "st-audit-in")
+    ctx = O.Ctx(ins)
+    p = {}
+    env.install()
+    env.STATE.escapes[:] = []
+    before = env.STATE.audited
+    r = engine_f.run_call(os.path.join(root, "s"), {}, p, ("store", "p", "A", None), ctx)
+    assert r.outcome[0] == "ok", r.outcome
+    r = engine_f.run_call(os.path.join(root, "s"), common.snapshot(os.path.join(root, "s")), p, ("delete", "p"), ctx)
+    assert r.outcome[0] == "ok", r.outcome
+    assert not env.STATE.escapes, env.STATE.escapes
+    seen = env.STATE.audited - before
+    assert seen > 10, seen
+    found = []
+    for fn, args in (("os.rename", ("hashstore.yaml", "x.yaml")), ("open", ("hashstore.yaml",)), ("os.listdir", ("",)),
+                     ("os.mkdir", ("zz",)), ("os.remove", ("hashstore.yaml",))):
+        env.STATE.escapes[:] = []
+        env.CUR.w = engine_f.FWorker(os.path.join(root, "s"))
+        try:
+            try:
+                x = env.REAL[fn](*[os.path.join(root, "s", a) for a in args])
+                if hasattr(x, "close"):
+                    x.close()
+            except OSError:
+                pass
+        finally:
+            env.CUR.w = None
+        assert env.STATE.escapes, "escape through %s not detected" % fn
+        found.append(fn)
+    env.STATE.escapes[:] = []
+    return seen, found
+
+
 def main(tier="quick"):
     import hashstore.filehashstore
     assert hashstore.filehashstore.__file__.startswith(common.REPO), hashstore.filehashstore.__file__
     t0 = time.time()
     n = check_open_conformance()
     print("selftest: layered open() conforms to builtin open() on %d observations" % n)
+    seen, found = check_escape_detector()
+    print("selftest: escape detector: %d audited file-system events of two calls all came through the layer; direct use of %s reported" % (
+        seen, ", ".join(found)))
     ex, nl, ns = check_shims_threading()
     print("selftest: lock/condition shims: %d interleavings, %d outcomes; real threading showed %d, all among them" % (ex, nl, ns))
     for name, a, b, t in check_reduction(tier):
